@@ -337,7 +337,7 @@ def body(chk, db, cfgname):
     check_pool(r6, db, cfgname, sp, runs)
 
     r7 = chk.rule("C16-R7", "the master reports finished exactly when Finish has been sent to every worker of its pool (the dedicated-master loop `while(!is_finished())` neither leaves workers polling nor spins forever)", "F4 state predicate, interpreted over all flag patterns", 1)
-    check_master_finished(r7, db, cfgname)
+    check_master_finished(r7, db, cfgname, 6 if chk.tier == "thorough" else 3)
 
     chk.undecided.append("exactly-once execution and termination for every interleaving of messages and job executions, and across consecutive rounds on one communicator (schedule quantifier: needs model checking of the protocol, a different technique family)")
     chk.trusted.append("Boost.MPI request semantics (test() of a completed non-blocking receive returns the status once)")
@@ -522,7 +522,7 @@ def check_pool(r6, db, cfgname, sp, runs):
 
 
 
-def check_master_finished(r7, db, cfgname):
+def check_master_finished(r7, db, cfgname, maxn=3):
     """MPIMaster::is_finished() only counts / compares the per-worker `Finish sent` flags, so its extracted body is evaluated for
     every flag pattern of pools of 1..3 workers, with the job and idle-worker stacks empty and non-empty: it must be true exactly
     when every flag is set, and must not depend on the stacks (check_workers sends Finish and sets the flags in the same step,
@@ -534,7 +534,7 @@ def check_master_finished(r7, db, cfgname):
     site = M + "::is_finished"
     with r7.guard(site, f.loc(), cfgname):
         cases = 0
-        for n in range(1, 4):
+        for n in range(1, maxn + 1):
             for flags in itertools.product((False, True), repeat=n):
                 for jobs in ([], [7]):
                     for idle in range(n + 1):
